@@ -9,6 +9,7 @@ package main
 // R2  a constant index into the coordinate slice needs a length guard.
 
 import (
+	"strings"
 	"fmt"
 	"go/ast"
 	"go/token"
@@ -415,12 +416,17 @@ func c10indexGuard(c *Ctx, p *pkgT) {
 		sig := fn.Type().(*types.Signature)
 		if sig.Recv() == nil && sig.Params().Len() == 3 {
 			if _, ok := sig.Params().At(2).Type().Underlying().(*types.Slice); ok && isNamed(sig.Params().At(0).Type(), modPath+"/proj", "SR") {
-				target = fn
+				if b, isB := sig.Params().At(1).Type().Underlying().(*types.Basic); isB && b.Kind() == types.Bool {
+					target = fn
+				}
 			}
 		}
 	}
 	if target == nil {
 		c.Unk("C10.R2", "proj#axis-adjustment", token.NoPos, "the axis adjustment function was not found")
+		return
+	}
+	if c10axisModel(c, target) {
 		return
 	}
 	fd := c.P.Decl(target)
@@ -621,4 +627,78 @@ func c10indexGuard(c *Ctx, p *pkgT) {
 	if len(list) == 0 {
 		c.Unk("C10.R2", c.P.FuncName(target), fd.Pos(), "no constant index into the coordinate slice found")
 	}
+}
+
+// c10axisModel interprets the axis adjustment for every 3-letter axis string over
+// {e,w,n,s,u,d} plus an invalid letter, denorm true/false and coordinate slices of length 2 and
+// 3 (what the transformer passes): it must never index outside the slice, and an unknown letter
+// must give an error.  Returns false when the function is outside the interpreter's fragment
+// (the syntactic rule then decides).
+func c10axisModel(c *Ctx, target *types.Func) bool {
+	srT := c.P.NamedType("proj", "SR")
+	if srT == nil {
+		return false
+	}
+	it := &oInterp{p: c.P, maxDepth: 6}
+	errV := oIface{opaque: &oOpaque{name: "error", isError: true}}
+	it.stub = func(f *types.Func, recv oval, args []oval) ([]oval, bool) {
+		if f.FullName() == "fmt.Errorf" || f.FullName() == "errors.New" {
+			return []oval{errV}, true
+		}
+		if f.Pkg() != nil && f.Pkg().Path() == "fmt" {
+			return []oval{oTop{"fmt"}}, true
+		}
+		return nil, false
+	}
+	letters := []byte("ewnsudx")
+	f64s := types.NewSlice(types.Typ[types.Float64])
+	runs := 0
+	name := c.P.FuncName(target) + "#index-model"
+	pos := c.P.Decl(target).Pos()
+	for _, a := range letters {
+		for _, b := range letters {
+			for _, d := range letters {
+				axis := string([]byte{a, b, d})
+				for _, n := range []int{2, 3} {
+					for _, denorm := range []bool{false, true} {
+						st := it.zero(srT).(*oStruct)
+						st.fields["Axis"] = strVal(types.Typ[types.String], axis)
+						st.fields["Name"] = strVal(types.Typ[types.String], "model")
+						vals := make([]oval, n)
+						for i := range vals {
+							vals[i] = oFloat{int64(10 + 2*i)}
+						}
+						pt := oSlice{typ: f64s, arr: &vals, lo: 0, hi: n, capEnd: n}
+						runs++
+						res, why := it.Call(target, nil, []oval{oPtr{st}, oBool(denorm), pt}, 0)
+						if why != "" {
+							if strings.HasPrefix(why, "panic:") {
+								c.Bad("C10.R2", name, pos, "axis %q, denorm=%v, a %d-element coordinate slice (the transformer passes two ordinates): %s", axis, denorm, n, why)
+								c.Evals(runs)
+								return true
+							}
+							return false // outside the fragment: let the syntactic rule decide
+						}
+						// the third letter is only looked at when there is a third ordinate
+						invalid := axis[0] == 'x' || axis[1] == 'x' || (axis[2] == 'x' && n == 3)
+						if axis[2] == 'x' && n == 2 {
+							continue
+						}
+						if eq, ok := oEqual(res[1], oNil{}); ok && eq == invalid {
+							if invalid {
+								c.Bad("C10.R2", name, pos, "axis %q contains an unknown letter but no error is returned", axis)
+							} else {
+								c.Bad("C10.R2", name, pos, "axis %q is valid but an error is returned", axis)
+							}
+							c.Evals(runs)
+							return true
+						}
+					}
+				}
+			}
+		}
+	}
+	c.Evals(runs)
+	c.OK("C10.R2", name, pos, "%d model runs (all 3-letter axis strings over e,w,n,s,u,d and an invalid letter × denorm × slices of 2 and 3 ordinates): no index leaves the slice; unknown letters give an error", runs)
+	return true
 }
